@@ -2111,6 +2111,17 @@ class NamespaceSet(MutableSet[_NSO], Generic[_NSO]):
         backend, case_sensitive = self._backend[attribute_name]
         return backend.get(attribute_value if case_sensitive else attribute_value.upper(), default)
 
+    @staticmethod
+    def _update_attributes_from(obj: object, other: object) -> None:
+        """
+        Update a contained object that is not a :class:`~.Referable` (a :class:`~.Qualifier` or an
+        :class:`~.Extension`) in place from an object with the same identifying attribute: all attributes are taken
+        from ``other``, the ``parent`` is kept.
+        """
+        for name, var in vars(other).items():
+            if name != "parent":
+                vars(obj)[name] = var
+
     # Todo: Implement function including tests
     def update_nss_from(self, other: "NamespaceSet"):
         """
@@ -2131,11 +2142,11 @@ class NamespaceSet(MutableSet[_NSO], Generic[_NSO]):
                 elif isinstance(other_object, Qualifier):
                     backend, case_sensitive = self._backend["type"]
                     qualifier = backend[other_object.type if case_sensitive else other_object.type.upper()]
-                    # qualifier.update_from(other_object, update_source=True) # TODO: What should happen here?
+                    self._update_attributes_from(qualifier, other_object)
                 elif isinstance(other_object, Extension):
                     backend, case_sensitive = self._backend["name"]
                     extension = backend[other_object.name if case_sensitive else other_object.name.upper()]
-                    # extension.update_from(other_object, update_source=True) # TODO: What should happen here?
+                    self._update_attributes_from(extension, other_object)
                 else:
                     raise TypeError("Type not implemented")
             except KeyError:
